@@ -87,7 +87,7 @@ _run_counter = [0]
 
 
 def tlc(module, cfg, workers=8, timeout=900, env=None, trace=None, tag="mc", simulate=None,
-        coverage=False, heap=None, depth_first=False):
+        coverage=False, heap=None, depth_first=False, seed=None, depth=None):
     """Run TLC on spec/<module>.tla with the given cfg text. Returns dict with output and stats."""
     _run_counter[0] += 1
     d = os.path.join(WORK, "tlc", f"{tag}-{os.getpid()}-{_run_counter[0]}")
@@ -101,6 +101,10 @@ def tlc(module, cfg, workers=8, timeout=900, env=None, trace=None, tag="mc", sim
         cmd += ["-coverage", "1"]
     if simulate:
         cmd += ["-simulate", simulate]
+    if seed is not None:
+        cmd += ["-seed", str(seed)]
+    if depth is not None:
+        cmd += ["-depth", str(depth)]
     cmd.append(os.path.join(SPEC, module + ".tla"))
     e = {}
     jopts = ["-Xss1g"]
@@ -181,7 +185,7 @@ def split_runs(trace_path):
     return lines, runs
 
 
-def validate_trace(trace_path, module, consts, max_rejections=25, timeout=900, tag="tv", spec="Spec"):
+def validate_trace(trace_path, module, consts, max_rejections=25, timeout=900, tag="tv", spec="Spec", invariants=()):
     """Validate an ndjson trace against spec/<module>.tla.  After a rejection, validation resumes at
     the next Reset line so that the rest of the trace is still examined.
     Returns dict(events, accepted_events, rejections=[{line, run_start, run_end, event, out}])"""
@@ -194,7 +198,7 @@ def validate_trace(trace_path, module, consts, max_rejections=25, timeout=900, t
     tmpfiles = []
     wall = 0.0
     while offset < total and len(rejections) <= max_rejections:
-        cfg = cfg_text(spec=spec, consts=consts, postcondition="Accepted")
+        cfg = cfg_text(spec=spec, consts=consts, postcondition="Accepted", invariants=invariants)
         r = tlc(module, cfg, workers=1, timeout=timeout, trace=cur, tag=tag, heap="6g")
         wall += r["wall"]
         if r["status"] == "ok":
@@ -203,6 +207,14 @@ def validate_trace(trace_path, module, consts, max_rejections=25, timeout=900, t
         if r["status"] in ("timeout", "error"):
             raise ToolError(f"trace validation {r['status']} for {module} on {cur}: see {r['dir']}/tlc.out\n" + r["out"][-1500:])
         rej = parse_rejection(r["out"])
+        if not rej and r.get("violated") not in (None, "postcondition"):
+            # an invariant of the specification is violated in a state of the validated trace: the state was
+            # reached by consuming line l-1
+            ls = re.findall(r"/\\ l = (\d+)", r["out"])
+            if ls:
+                at = max(int(ls[-1]) - 1, 1)
+                rej = (at, total - offset, {"invariant_violated_on_trace": r.get("violated"),
+                                            "event": json.loads(lines[offset + at - 1])})
         if not rej:
             raise ToolError(f"trace validation failed without rejection marker: {r['dir']}/tlc.out\n" + r["out"][-1500:])
         at, tot, ev = rej
@@ -253,3 +265,24 @@ def save_replay(pid, tier, seed, n, pieces):
         with open(os.path.join(d, name), "w") as f:
             f.write(txt)
     return d
+
+
+def export_schedules(module, cfg, out_path, simulate=None, seed=None, depth=None, workers=4, timeout=900, limit=None, tag="sched"):
+    """Run TLC on a model whose invariant prints <<"SCHED", json>> lines; write the distinct schedules
+    (one JSON value per line) to out_path. Returns (count, tlc result)."""
+    r = tlc(module, cfg, workers=workers, timeout=timeout, simulate=simulate, seed=seed, depth=depth, tag=tag)
+    if r["status"] not in ("ok",):
+        raise ToolError(f"schedule export from {module} failed ({r['status']}): {r['dir']}/tlc.out\n" + r["out"][-1500:])
+    seen = set()
+    n = 0
+    with open(out_path, "a") as f:
+        for m in re.finditer(r'<<"SCHED", "(.*)">>', r["out"]):
+            sline = json.loads('"' + m.group(1) + '"')
+            if sline in seen:
+                continue
+            seen.add(sline)
+            f.write(sline + "\n")
+            n += 1
+            if limit and n >= limit:
+                break
+    return n, r
